@@ -513,6 +513,16 @@ def _run(ctx):
     )
     _drive(ctx, d, ({"scheduler": "slurm", "script": list(h), "options": {}} for h in hist))
     _drive(ctx, d, ({"scheduler": "slurm", "script": list(h), "options": {}, "gone": "error"} for h in SE.histories(2)))
+    if ctx.thorough:
+        red = (SE.PENDING, SE.COMPLETED, SE.FAILED, SE.CANCELLED, SE.TIMEOUT, SE.NODE_FAIL, SE.MISSING)
+        h5 = [h for h in SE.histories(5, red) if len(h) == 5]
+        d = ctx.domain(
+            "slurm-verdicts-length-5",
+            bound=f"SLURM, no user options: every response sequence of length exactly 5 over the reduced alphabet {red} in which nothing follows a definite verdict ({len(h5)} sequences)",
+            rule="as slurm-verdicts",
+            exhaustive=True,
+        )
+        _drive(ctx, d, ({"scheduler": "slurm", "script": list(h), "options": {}} for h in h5))
     hist_o = SE.histories(2)
     d = ctx.domain(
         "slurm-user-options",
